@@ -203,7 +203,7 @@ def gen_problem(rng):
         off.append(0 if theme == "bool" else rng.randint(-2, 2))
     p = nv.Prob(shr, idx, off)
     algs = INT_ALGS + (["and", "exactly_true"] * 4 if theme == "bool" else [])
-    for _ in range(rng.randint(1, 4)):
+    for _ in range(rng.randint(1, 4) if rng.random() > 0.03 else 0):  # now and then: no constraint at all
         q = make_prop(rng, p, rng.choice(algs))
         if q:
             p.props.append(q)
